@@ -20,12 +20,13 @@ class Link:
         self.alive = True
 
 class Net:
-    def __init__(self, tag, env=None, election_timeout="10"):
+    def __init__(self, tag, env=None, election_timeout="10", with_model=True):
         self.dir = os.path.join(core.SCRATCH, f"net_{tag}_{os.getpid()}")
         shutil.rmtree(self.dir, ignore_errors=True); os.makedirs(self.dir)
         e = dict(core.ENV, NVH_DIR=self.dir, NUN_ELECTION_TIMEOUT=election_timeout); e.update(env or {})
         self.p = subprocess.Popen([core.NVH, "run", "-"], stdin=subprocess.PIPE, stdout=subprocess.PIPE, stderr=subprocess.DEVNULL, env=e, text=True, bufsize=1)
-        self.m = subprocess.Popen([core.MODEL, "--serve"], stdin=subprocess.PIPE, stdout=subprocess.PIPE, stderr=subprocess.DEVNULL, text=True, bufsize=1)
+        # with_model=False: an implementation-only stage (lock-level schedules, which the sequential model cannot follow); judged by the oracle alone
+        self.m = subprocess.Popen([core.MODEL, "--serve"], stdin=subprocess.PIPE, stdout=subprocess.PIPE, stderr=subprocess.DEVNULL, text=True, bufsize=1) if with_model else None
         self.mscript = []        # the same operations as given to the model (its own operation ids)
         self.mdisp = []          # ... without the implementation's annotations (for the comparison)
         self.mout = []           # model output per operation
@@ -47,17 +48,22 @@ class Net:
     def close(self):
         try: self.p.stdin.close(); self.p.wait(timeout=10)
         except Exception: self.p.kill()
-        try: self.m.stdin.close(); self.m.wait(timeout=10)
-        except Exception: self.m.kill()
+        if self.m is not None:
+            try: self.m.stdin.close(); self.m.wait(timeout=10)
+            except Exception: self.m.kill()
         shutil.rmtree(self.dir, ignore_errors=True)
 
     # ------------------------------------------------------------------ primitive operations
     def _talk(self, proc, line):
-        proc.stdin.write(line + "\n"); proc.stdin.flush()
+        who = "implementation (harness process with the real nodes)" if proc is self.p else "model driver"
+        try:
+            proc.stdin.write(line + "\n"); proc.stdin.flush()
+        except BrokenPipeError:
+            raise RuntimeError(f"{who} died on: " + line)
         res = []
         while True:
             l = proc.stdout.readline()
-            if l == "": raise RuntimeError("driver died on: " + line)
+            if l == "": raise RuntimeError(f"{who} died on: " + line)
             l = l.rstrip("\n")
             if l == ".": break
             if l.startswith("> "): continue
@@ -75,7 +81,7 @@ class Net:
         self.mdisp.append(tr(line))
         if ann is not None and line.startswith("@"): line = line.split(" ", 1)[0] + " " + ann[2:]
         mline = tr(line)
-        mres = self._talk(self.m, mline)
+        mres = self._talk(self.m, mline) if self.m is not None else list(res)
         self.mscript.append(mline); self.mout.append(mres)
         for l in res:
             for x in core.OPID.findall(l):
